@@ -1206,13 +1206,6 @@ stream_encoder_mt_init(lzma_next_coder *next, const lzma_allocator *allocator,
 		coder->threads_initialized = 0;
 	}
 
-	// Basic initializations
-	coder->sequence = SEQ_STREAM_HEADER;
-	coder->block_size = (size_t)(block_size);
-	coder->outbuf_alloc_size = (size_t)(outbuf_size_max);
-	coder->thread_error = LZMA_OK;
-	coder->thr = NULL;
-
 	// Allocate the thread-specific base structures.
 	//
 	// If this coder has been used before and worker threads have been
@@ -1232,6 +1225,7 @@ stream_encoder_mt_init(lzma_next_coder *next, const lzma_allocator *allocator,
 
 		coder->threads_initialized = 0;
 		coder->threads_free = NULL;
+		coder->thr = NULL;
 
 		coder->threads = lzma_alloc(
 				options->threads * sizeof(worker_thread),
@@ -1245,6 +1239,15 @@ stream_encoder_mt_init(lzma_next_coder *next, const lzma_allocator *allocator,
 		// threads to stop and wait until they have stopped.
 		threads_stop(coder, true);
 	}
+
+	// Basic initializations. These are done only after the possible
+	// old worker threads have been stopped because the threads read
+	// coder->block_size and may set coder->thread_error.
+	coder->sequence = SEQ_STREAM_HEADER;
+	coder->block_size = (size_t)(block_size);
+	coder->outbuf_alloc_size = (size_t)(outbuf_size_max);
+	coder->thread_error = LZMA_OK;
+	coder->thr = NULL;
 
 	// Output queue
 	return_if_error(lzma_outq_init(&coder->outq, allocator,
